@@ -119,3 +119,166 @@ theorem afterAE_newer_term_stops (s : Repl) (a : AEReq) (term lastLog : Nat) (ok
   simp [afterAE, hterm]
 
 end SV
+
+/-! ## The pipelined mode (`pipelineReplicate` / `pipelineSend` / `pipelineDecode`), as modelled by
+`SV.pipeStep` and stepped against the real routine by the catch-up engine's pipeline cases -/
+namespace SV
+
+/-- a refusal, or a newer term, credits nothing and ends the pipeline (the caller falls back to
+    `replicateTo`, which is where `nextIndex` is walked back) -/
+theorem pipeDecode_refusal_ends (p : Pipe) (a : AEReq) (term lastLog : Nat) (ok nr : Bool)
+    (h : term > a.term ∨ ok = false) :
+    (pipeDecode p a (some (.append term lastLog ok nr))).s = p.s ∧
+    (p.alive = true → (pipeDecode p a (some (.append term lastLog ok nr))).alive = false) := by
+  unfold pipeDecode
+  rcases h with h | h
+  · by_cases ha : p.alive = true <;> simp [ha, h]
+  · subst h
+    by_cases ha : p.alive = true <;> by_cases ht : term > a.term <;> simp [ha, ht]
+
+/-- the decoder changes the replication state only on an acknowledgement in the request's own term
+    (or an older one), and then to exactly the last entry of that request -/
+theorem pipeDecode_credit (p : Pipe) (a : AEReq) (r : Option Resp) (h : (pipeDecode p a r).s ≠ p.s) :
+    p.alive = true ∧ ∃ term lastLog nr e, r = some (.append term lastLog true nr) ∧ term ≤ a.term ∧
+      a.entries.getLast? = some e ∧
+      (pipeDecode p a r).s = { p.s with next := e.index + 1, matched := max p.s.matched e.index } := by
+  unfold pipeDecode at h ⊢
+  match r with
+  | none => simp at h
+  | some (.vote ..) => simp at h
+  | some (.prevote ..) => simp at h
+  | some (.install ..) => simp at h
+  | some .timeoutNow => simp at h
+  | some (.snap ..) => simp at h
+  | some (.campaigned ..) => simp at h
+  | some .none => simp at h
+  | some (.append term lastLog ok nr) =>
+    by_cases ha : p.alive = true
+    · by_cases ht : term > a.term
+      · simp [ha, ht] at h
+      · cases ok with
+        | false => simp [ha, ht] at h
+        | true =>
+          cases he : a.entries.getLast? with
+          | none => simp [ha, ht, he] at h
+          | some e =>
+            refine ⟨ha, term, lastLog, nr, e, rfl, by omega, rfl, ?_⟩
+            simp [ha, ht, he]
+    · simp [ha] at h
+
+/-- the decoder touches neither the queue nor the record of deliveries -/
+theorem pipeDecode_frame (p : Pipe) (a : AEReq) (r : Option Resp) :
+    (pipeDecode p a r).flight = p.flight ∧ (pipeDecode p a r).trace = p.trace := by
+  unfold pipeDecode
+  split <;> (repeat' split) <;> exact ⟨rfl, rfl⟩
+
+/-- what the pipeline has done so far is accounted for: every request queued or delivered was built
+    by `replSetup` from the leader's log (so `replSetup_wellformed` speaks about it), and the index
+    the follower is credited with is the last entry of a delivered request that the follower
+    acknowledged in that request's term -/
+structure PipeInv (cf : Cfg) (d : Durable) (v : Vol) (p : Pipe) : Prop where
+  flight : ∀ a ∈ p.flight, ∃ nx, replSetup cf d v nx v.lastLogIdx = some a
+  trace : ∀ x ∈ p.trace, ∃ a nx, x.1 = .ae a ∧ replSetup cf d v nx v.lastLogIdx = some a
+  credit : p.s.matched = 0 ∨ ∃ x ∈ p.trace, ∃ a e t l n, x.1 = .ae a ∧ a.entries.getLast? = some e ∧
+      e.index = p.s.matched ∧ answerOf x.2 = some (.append t l true n) ∧ t ≤ a.term
+
+theorem pipeSend_inv (cf : Cfg) (d : Durable) (v : Vol) (fuel : Nat) (p : Pipe) (h : PipeInv cf d v p) :
+    PipeInv cf d v (pipeSend cf d v fuel p) := by
+  unfold pipeSend
+  by_cases ha : p.alive = true
+  · simp only [ha, Bool.not_true, Bool.false_eq_true, if_false]
+    cases hs : replSetup cf d v p.loc v.lastLogIdx with
+    | none => exact ⟨h.flight, h.trace, h.credit⟩
+    | some a =>
+      simp only
+      split
+      · exact ⟨h.flight, h.trace, h.credit⟩
+      · refine ⟨?_, h.trace, h.credit⟩
+        intro b hb
+        simp only [List.mem_append, List.mem_singleton] at hb
+        rcases hb with hb | hb
+        · exact h.flight b hb
+        · subst hb; exact ⟨p.loc, hs⟩
+  · simp only [Bool.not_eq_true] at ha
+    simp [ha]; exact h
+
+theorem pipeDeliver_inv (cf : Cfg) (d : Durable) (v : Vol) (p : Pipe) (h : PipeInv cf d v p) :
+    PipeInv cf d v (pipeDeliver p) := by
+  unfold pipeDeliver
+  cases hf : p.flight with
+  | nil => exact h
+  | cons a rest =>
+    have hfl : ∀ b ∈ rest, ∃ nx, replSetup cf d v nx v.lastLogIdx = some b :=
+      fun b hb => h.flight b (by rw [hf]; exact List.mem_cons_of_mem _ hb)
+    obtain ⟨nx, hnx⟩ := h.flight a (by rw [hf]; exact List.mem_cons_self)
+    simp only
+    split
+    · exact ⟨hfl, h.trace, h.credit⟩
+    · -- the request is delivered: the follower's observation joins the trace, then the decoder runs
+      generalize hr : stepEvent p.f (Event.append a (p.faults.headD (none, none)).1 (p.faults.headD (none, none)).2) = r
+      let q : Pipe := { p with flight := rest, f := r.1, trace := p.trace ++ [(.ae a, r.2)], faults := p.faults.tail }
+      have hq : PipeInv cf d v q := by
+        refine ⟨hfl, ?_, ?_⟩
+        · intro x hx
+          simp only [q, List.mem_append, List.mem_singleton] at hx
+          rcases hx with hx | hx
+          · exact h.trace x hx
+          · subst hx; exact ⟨a, nx, rfl, hnx⟩
+        · rcases h.credit with hc | ⟨x, hx, rest'⟩
+          · exact Or.inl hc
+          · exact Or.inr ⟨x, by simp only [q, List.mem_append]; exact Or.inl hx, rest'⟩
+      show PipeInv cf d v (pipeDecode q a (answerOf r.2))
+      by_cases hsame : (pipeDecode q a (answerOf r.2)).s = q.s
+      · -- nothing credited: flight and trace are untouched by the decoder
+        have hft := pipeDecode_frame q a (answerOf r.2)
+        refine ⟨by rw [hft.1]; exact hq.flight, by rw [hft.2]; exact hq.trace, ?_⟩
+        rw [hsame, hft.2]; exact hq.credit
+      · obtain ⟨_, t, l, n, e, hans, hle, hlast, hs⟩ := pipeDecode_credit q a (answerOf r.2) hsame
+        have hft := pipeDecode_frame q a (answerOf r.2)
+        refine ⟨by rw [hft.1]; exact hq.flight, by rw [hft.2]; exact hq.trace, ?_⟩
+        rw [hs, hft.2]
+        simp only
+        by_cases hm : q.s.matched ≤ e.index
+        · refine Or.inr ⟨(.ae a, r.2), by simp [q], a, e, t, l, n, rfl, hlast, ?_, hans, hle⟩
+          omega
+        · rcases hq.credit with hc | hc
+          · omega
+          · rw [show max q.s.matched e.index = q.s.matched by omega]; exact Or.inr hc
+
+theorem pipeStep_inv (cf : Cfg) (d : Durable) (v : Vol) (fuel : Nat) (p : Pipe) (op : POp) (h : PipeInv cf d v p) :
+    PipeInv cf d v (pipeStep cf d v fuel p op) := by
+  cases op with
+  | send => exact pipeSend_inv cf d v fuel p h
+  | deliver => exact pipeDeliver_inv cf d v p h
+
+theorem pipeDrain_inv (cf : Cfg) (d : Durable) (v : Vol) (n : Nat) (p : Pipe) (h : PipeInv cf d v p) :
+    PipeInv cf d v (pipeDrain n p) := by
+  induction n generalizing p with
+  | zero => exact h
+  | succ n ih =>
+    unfold pipeDrain
+    split
+    · exact h
+    · exact ih _ (pipeDeliver_inv cf d v p h)
+
+/-- **C05 / C03 / C04 for the pipelined mode, every run.**  Whatever the order of sends and
+    deliveries, whatever the follower answers and whichever writes fail on it: every request comes
+    from the leader's log, and the follower is credited only with the last entry of a request it
+    acknowledged. -/
+theorem pipelineRun_inv (cf : Cfg) (d : Durable) (v : Vol) (fuel : Nat) (faults : List Fault) (f : World)
+    (next : Nat) (ops : List POp) : PipeInv cf d v (pipelineRun cf d v fuel faults f next ops) := by
+  unfold pipelineRun
+  apply pipeDrain_inv
+  have h0 : PipeInv cf d v ⟨⟨next, 0, 0, false⟩, next, [], true, false, false, 0, f, [], faults⟩ :=
+    ⟨fun a ha => absurd ha (by simp), fun x hx => absurd hx (by simp), Or.inl rfl⟩
+  generalize (⟨⟨next, 0, 0, false⟩, next, [], true, false, false, 0, f, [], faults⟩ : Pipe) = p0 at h0
+  induction ops generalizing p0 with
+  | nil => exact h0
+  | cons op ops ih => exact ih _ (pipeStep_inv cf d v fuel p0 op h0)
+
+/-- non-vacuity: an acknowledged request really is credited, to exactly its last entry -/
+example (p : Pipe) (h : p.alive = true) :
+    (pipeDecode p ⟨11, 1, 2, 2, 1, 0, [⟨3, 2, 0, 7, []⟩]⟩ (some (.append 2 3 true false))).s.matched = max p.s.matched 3 := by
+  simp [pipeDecode, h]
+
+end SV
